@@ -17,6 +17,8 @@
      position; ASCII only, no carriage returns (universal-newline translation is not modelled);
    * a str is a Coq string; `a in b` is [Strs.contains]; `s.split(c)` is [Split.split_on]; `s.split()` splits at
      every ASCII whitespace character and drops the empty pieces; `s.strip()` drops ASCII whitespace at both ends;
+   * a list is a value: x.append(e) is x ++ [e]; where a list object is reachable under two names / inside another
+     list and is changed in place, the translator inserts an alias flag and the method returns Err OtherError;
    * the object after a call that raised is not modelled. *)
 From Coq Require Import List String Ascii ZArith QArith Bool Arith.
 From SX Require Import Lib.Strs Lib.Split Model.Oscar.
